@@ -259,3 +259,5 @@ B("c01-maze-walls-transposed-spec", "C01", "C01.R8", (R + "maze/env.py", "Maze.o
 B("c01-tsp-trajectory-shape", "C01", "C01.R8", (R + "tsp/env.py", "TSP.observation_spec", "expr", "(self.num_cities,)", "(self.num_cities + 1,)", 2))
 B("c01-snake-planes-4", "C01", "C01.R8", (R + "snake/env.py", "Snake.observation_spec", "expr", "(self.num_rows, self.num_cols, 5)", "(self.num_rows, self.num_cols, 4)"))
 T("c01-twin-shape-tuple-attr", "C01", (R + "snake/env.py", "Snake.observation_spec", "expr", "(self.num_rows, self.num_cols, 5)", "(*self.board_shape, 5)"))
+B("c04-tetris-action-rows", "C04", "C04.R6", (P + "tetris/env.py", "Tetris.action_spec", "expr", "jnp.array([NUM_ROTATIONS, self.num_cols])", "jnp.array([NUM_ROTATIONS, self.num_rows])"))
+B("c04-connector-mask-spec", "C04", "C04.R6", (R + "connector/env.py", "Connector.observation_spec", "expr", "(self.num_agents, 5)", "(self.num_agents, 4)"))
